@@ -490,3 +490,35 @@ pub fn run(a: &Args) -> Report {
     hostile_reply_part(&mut total, a);
     total
 }
+
+/// Deeply nested bencode: run in a thread with the actor's (default) stack size. A stack overflow
+/// aborts the whole process, so the driver runs this in a subprocess and looks at the exit status.
+pub fn nest_probe(a: &Args) -> Report {
+    let mut r = Report::new("C05");
+    let depths: Vec<usize> = a.extra.iter().filter_map(|s| s.parse().ok()).collect();
+    let depths = if depths.is_empty() { vec![10, 100, 500, 1000, 1500, 2040] } else { depths };
+    for depth in depths {
+        for (name, open, close) in [("list", b'l', 1usize), ("dict", b'd', 1)] {
+            for prefix in [&b"d1:x"[..], &b"d1:ad2:id20:abcdefghij01234567891:x"[..], &b"d1:rd2:id20:abcdefghij01234567895:nodes"[..], &b""[..]] {
+                let mut v = prefix.to_vec();
+                for _ in 0..depth {
+                    v.push(open);
+                    if open == b'd' {
+                        v.extend_from_slice(b"1:a");
+                    }
+                }
+                v.truncate(2048 - close);
+                let bytes = v.clone();
+                let h = std::thread::Builder::new().name("Mainline Dht actor thread".into()).spawn(move || {
+                    let _ = std::panic::catch_unwind(|| WireMessage::decode(&bytes));
+                });
+                let _ = h.map(|h| h.join());
+                r.eval();
+                r.nontrivial(mix(depth as u64, fnv(&v)));
+                r.count(&format!("nested_{name}_decoded"));
+                println!("survived depth={depth} kind={name} prefix_len={}", prefix.len());
+            }
+        }
+    }
+    r
+}
